@@ -22,7 +22,7 @@ OPS = [
     ("delete_ix", 0), ("delete_ix", -1), ("delete_mn", "first"), ("delete_mn", "last"),
     ("update_ix", 0, "data"), ("update_mn", "last", "meta"), ("update_ix", -1, "all"),
     ("replace", 0, "new"), ("replace", -1, "dup"), ("replace", "mid", "new"),
-    ("setitem_arr", "newkey"), ("setitem_arr", "first"), ("setitem_item", "last"), ("setitem_item", "newkey"),
+    ("setitem_arr", "newkey"), ("setitem_arr", "first"), ("setitem_arr", "casevariant"), ("setitem_item", "last"), ("setitem_item", "newkey"),
     ("set_data", "same", None, False), ("set_data", "wider", "dupnames", False),
     ("set_data", "wider", None, True), ("set_data", "same", "newnames", False), ("set_data", "rows", None, False),
     ("inplace", 0), ("inplace", -1),
@@ -259,6 +259,13 @@ class Run:
                 if op[1] == "newkey":
                     key = self.name("new")
                     m_insert(m, len(m), {"orig": key, "unit": "", "value": "", "descr": "", "data": a.copy()}, self.norm)
+                elif op[1] == "casevariant":
+                    # a name that differs from an existing one only in letter case is a *new* key (keys() is matched exactly)
+                    base = next((c["orig"] for c in m if c["orig"] and c["orig"].swapcase() != c["orig"]), None)
+                    if base is None or base.swapcase() in self.keys():
+                        return None, False, None
+                    key = base.swapcase()
+                    m_insert(m, len(m), {"orig": key, "unit": "", "value": "", "descr": "", "data": a.copy()}, self.norm)
                 else:
                     key = self.key_at(op[1])
                     if key is None:
@@ -441,8 +448,10 @@ class Run:
             else:
                 if not ok:
                     V("int-index", "las[%d] is not curve #%d's array %s" % (i, i % n, tag))
+        fold = (lambda x: x.upper()) if self.norm else (lambda x: x)
+        folded = [fold(x) for x in sess]
         for i, k in enumerate(sess):
-            if sess.count(k) == 1:
+            if folded.count(fold(k)) == 1:      # colliding session names are C13's known finding, not a list-model matter
                 try:
                     ok = las[k] is items[i].data
                 except Exception as e:
